@@ -98,6 +98,9 @@ META["rule"] += (
 META["rule"] += (
     " " + 'Added after the third round: half of the grid-built networks get a resistance value for every node pair (the links are those of the given adjacency).')
 
+META["rule"] += (
+    " " + 'Added after the fifth round: 40 % of the networks carry geographical or hand-set node weights; after every update six queries are asked again with nothing changed in between (same answer, earlier answers unmodified).')
+
 RT = 1e-9
 
 
